@@ -11,6 +11,7 @@ Patches
 * ``SymbolicMemoryView.__enter__/__exit__``, ``.cast("B")``, ``.tobytes``, ``__eq__``.
 * ``bytearray(int)``: symbolic-capable zero-filled buffer (bytes written into it stay symbolic).
 * ``str(buffer, encoding[, errors])`` on a symbolic buffer -> ``buffer.decode(...)``.
+* symbolic int compared / added / subtracted with a concrete float: decided in integer arithmetic (no z3 FP).
 * ``x in symbolic_bytes`` / ``symbolic_bytes.isspace()``: element-wise instead of realising the buffer.
 """
 
@@ -168,6 +169,71 @@ def apply() -> None:
         return format(obj, format_spec)
 
     _REG[format] = _format2
+
+    # symbolic int <op> concrete float: CrossHair promotes to z3 floating point (5-15 s per query, often `unknown`).
+    # For an *integer* x and a concrete float f the result is decided exactly in integer arithmetic.
+    import math as _math
+    import operator as _op
+
+    _orig_binop_internal = _b.numeric_binop_internal
+    _CMP = {_op.lt, _op.le, _op.gt, _op.ge, _op.eq, _op.ne}
+    _SWAP = {_op.lt: _op.gt, _op.le: _op.ge, _op.gt: _op.lt, _op.ge: _op.le, _op.eq: _op.eq, _op.ne: _op.ne}
+
+    def _int_vs_float(op, x, f):
+        """x: SymbolicInt, f: concrete float, result of op(x, f) (x on the left); None = not handled"""
+        if op in _CMP:
+            if _math.isnan(f):
+                return op is _op.ne
+            if _math.isinf(f):
+                big = f > 0
+                return {_op.lt: big, _op.le: big, _op.gt: not big, _op.ge: not big, _op.eq: False, _op.ne: True}[op]
+            if f == _math.floor(f):
+                return ("int", op, int(f))
+            lo = _math.floor(f)  # lo < f < lo+1
+            if op is _op.lt or op is _op.le:
+                return ("int", _op.le, lo)
+            if op is _op.gt or op is _op.ge:
+                return ("int", _op.ge, lo + 1)
+            return op is _op.ne
+        if op in (_op.add, _op.sub):
+            if _math.isnan(f):
+                return f
+            if _math.isinf(f):
+                return f if op is _op.add else -f
+            if f == _math.floor(f):
+                return ("int", op, int(f))
+        return None
+
+    def _binop_internal2(op, a, b):
+        a_sym = isinstance(a, _b.SymbolicInt)
+        b_sym = isinstance(b, _b.SymbolicInt)
+        if a_sym and type(b) is float:
+            r = _int_vs_float(op, a, b)
+            if isinstance(r, tuple):
+                return _orig_binop_internal(r[1], a, r[2])
+            if r is not None:
+                return r
+        elif b_sym and type(a) is float:
+            if op in _CMP:
+                r = _int_vs_float(_SWAP[op], b, a)
+                if isinstance(r, tuple):
+                    return _orig_binop_internal(r[1], b, r[2])
+                if r is not None:
+                    return r
+            elif op is _op.add:
+                r = _int_vs_float(op, b, a)
+                if isinstance(r, tuple):
+                    return _orig_binop_internal(op, b, r[2])
+                if r is not None:
+                    return r
+            elif op is _op.sub:  # a - b with concrete float a
+                if _math.isnan(a) or _math.isinf(a):
+                    return a
+                if a == _math.floor(a):
+                    return _orig_binop_internal(op, int(a), b)
+        return _orig_binop_internal(op, a, b)
+
+    _b.numeric_binop_internal = _binop_internal2
 
     # map() is a C iterator: the mapped function is then called outside the tracer and symbolic arguments get
     # realised (easynetwork's iter_bytes = map(int.to_bytes, buffer)).  Model: the equivalent lazy generator.
